@@ -172,6 +172,12 @@ class Gen:
 
     def stage_op(self):
         x = self.rng.random()
+        if x < 0.03:
+            # all the way round: the unsigned char stage wraps and meets the blocks of the stage it started from
+            n = self.rng.choice([255, 256, 257])
+            self.ops += ["stage inc"] * n
+            self.stage = (self.stage + n) % 256
+            return
         if x < 0.4:
             self.ops.append("stage inc"); self.stage = (self.stage + 1) % 256
         elif x < 0.6:
@@ -294,6 +300,13 @@ def generate(rng, tier):
     return out
 
 
+def signature(r):
+    """class of a failing case: the default one with lists of addresses / totals collapsed, so that shrinking may drop blocks"""
+    import re
+    from vlib import flow
+    return re.sub(r"\[[^\]]*\]", "[..]", flow.default_signature(r))
+
+
 def translate(ctx):
     from translate import extract_leakdetector
     return extract_leakdetector.run()
@@ -355,6 +368,23 @@ def nontrivial(r):
 def observe(r, rep):
     for k in _walk(r):
         rep.count("branch." + k)
+    # counters outside the claim that the model also follows: stage wrap-around, period switches that do not nest
+    stage, lastp = 0, []
+    for l in r.impl:
+        w = l.split()
+        if w[:1] == ["stagenow"]:
+            n = int(w[1])
+            if stage == 0 and n == 255:
+                rep.count("branch.stage_wrap_0_to_255")
+            elif stage == 255 and n == 0:
+                rep.count("branch.stage_wrap_255_to_0")
+            stage = n
+        elif w[:2] == [">", "period"]:
+            lastp = (lastp + [w[2]])[-3:]
+            if lastp == ["disable", "disable", "enable"]:
+                rep.count("branch.two_disables_then_enable")
+            if lastp[-2:] == ["disable", "start"]:
+                rep.count("branch.start_checking_while_disabled")
     for l in r.impl:
         if l.startswith("totals "):
             n = int(l.split()[1])
